@@ -47,6 +47,12 @@ def obligations(tier):
     # a member swapped for one of the same name that reads another input (remove_indicator + add_indicator)
     for name, kw, n in (("STDEV", dict(period=2), 5), ("BBANDS", dict(period=2), 5), ("KC", dict(period=2), 6), ("STDEVTHRES", dict(period=2), 5)):
         obs.append(Ob(f"swap-input/{name}{kw}/close->open/n={n}", dict(spec=["ind", name, kw], n=n, input="open"), DEF, fn="run_swap", weight=n * 3, budget_s=300))
+    # fed live under a candle lifespan (the head of the list is trimmed on every append once the window is full)
+    for name, kw, n, L in (("ATR", dict(period=2), 8, 4), ("KC", dict(period=2), 8, 4), ("BBANDS", dict(period=2), 8, 4), ("Supertrend", dict(period=2), 7, 4), ("donchian", dict(period=2), 7, 3), ("STDEV", dict(period=2), 8, 4)):
+        obs.append(Ob(f"live under a {L}-minute lifespan/{name}{kw}/n={n}", dict(spec=["ind", name, kw], n=n, feed="live-lifespan", life_minutes=L), DEF, weight=n * 5, budget_s=300, max_paths=100000))
+    # under a candle lifespan of days (far longer than the stream): nothing is trimmed, the definitions hold unchanged
+    for name, kw, n, days, hours in (("HL", dict(period=2), 5, 30, 0), ("donchian", dict(period=2), 5, 1, 0), ("ATR", dict(period=2), 6, 2, 12), ("STDEV", dict(period=2), 6, 30, 0), ("BBANDS", dict(period=2), 6, 1, 1), ("KC", dict(period=2), 6, 7, 0)):
+        obs.append(Ob(f"lifespan of days/{name}{kw}/{days}d{hours}h/n={n}", dict(spec=["ind", name, kw], n=n, lifespan_days=days, lifespan_hours=hours), DEF, weight=n * 3, budget_s=300, max_paths=100000))
     # an older candle recomputed through calculate_index between the batch part and the live part of the stream
     for name, kw, n, k in (("ATR", dict(period=2), 7, 5), ("KC", dict(period=2), 7, 5), ("BBANDS", dict(period=2), 7, 5), ("Supertrend", dict(period=2), 6, 4), ("STDEVTHRES", dict(period=2), 7, 5), ("STDEV", dict(period=2), 7, 5)):
         obs.append(Ob(f"calculate_index(older) then appends/{name}{kw}/n={n}", dict(spec=["ind", name, kw], n=n, k=k, feed="cidx-then-append"), DEF, weight=n * 5, budget_s=300, max_paths=100000))
